@@ -31,7 +31,7 @@ for f in kf['findings']:
     t.append("* **%s** (%s): %s\n" % (f['id'], f['property'], f['title']))
 def _unchanged(m):
     st = (m.get('strengthening') or '').lower()
-    return st.startswith('none') or st.startswith('no change') or st.startswith('caught by the tier as it stood')
+    return st.startswith('none') or st.startswith('no change') or st.startswith('caught by')
 _rounds = {}
 for m in seeds:
     r = m['id'][-1]
